@@ -220,7 +220,8 @@ pub fn srs_to_lean(srs: &[SR], ranks: &Ranks) -> String {
     }
     fn one(s: &SR, ranks: &Ranks) -> String {
         match s {
-            SR::Metric { kind: MK::Percentiles | MK::Cardinality | MK::TopHits, .. } | SR::Hits(_) => "N".into(),
+            SR::Hits(vs) => format!("H[{}]", vs.iter().map(|v| format!("{v}:{v}")).collect::<Vec<_>>().join(";")),
+            SR::Metric { kind: MK::Percentiles | MK::Cardinality | MK::TopHits, .. } => "N".into(),
             SR::Metric { field, .. } if field.is_str() => "N".into(),
             SR::Metric { count, sum, sumsq, min, max, .. } => format!("M[{count},{sum},{sumsq},{},{}]", opt_s(*min), opt_s(*max)),
             SR::Terms { field, all, size, .. } => {
